@@ -53,7 +53,9 @@ P2 == [prog |-> <<Grp(10, FALSE, FALSE, 1,
                              Tm(1, <<At("hv", "mt", 0)>>), Tm(1, <<At("hv", "DWJ", 0)>>),
                              Tm(1, <<At2("h2", "", 0, <<Sym("GHI"), Sym("GHJ")>>)>>)>>),
                         St("dp", "q0", 0, "radd", <<>>,
-                           <<Tm(2, <<Sym("RHOIJ1"), At("sp", "m", 0)>>), Tm(1, <<Sym("EPS")>>)>>)>>])
+                           <<Tm(2, <<Sym("RHOIJ1"), At("sp", "m", 0)>>), Tm(1, <<Sym("EPS")>>),
+                             Tm(3, <<At2("idiv", "", 0, <<At("at", "ci", 0), At("il", "", 2)>>),
+                                     At("dp", "m", 0)>>)>>)>>])
           ELSE Body(Attrs(4, 2, <<3, 1>>),
             [initialize |-> <<St("dp", "p1", 0, "set", <<>>, <<Tm(3, <<>>)>>)>>,
              loop |-> <<St("dp", "p1", 0, "add", <<>>,
@@ -218,6 +220,9 @@ Theorems(x) ==
         norm |-> /\ NormLog(rev, DestOf(NProg(x.prog))) = NormLog(log, DestOf(NProg(x.prog)))
                  /\ NormLog(log, DestOf(NProg(x.prog))) = log
                  /\ OrderDiff(NProg(x.prog), rev, log) = 0,
+        \* integer division: the truncating semantics gives another state
+        \* exactly for the program that divides two integers inexactly (P2)
+        cdiv |-> (EvalLogM(x, log, nb, TRUE) # W) = (x.prog = Programs[2].prog),
         inrange |-> ~W.bad,
         \* frame: properties no statement targets (all base properties) are unchanged
         frame |-> \A a \in 0..1 :
@@ -241,6 +246,7 @@ Spec == Init /\ [][Next]_vars
 Deterministic == chk.done => chk.det
 RevAllowed == chk.done => chk.rev
 NormalForm == chk.done => chk.norm
+CDivision == chk.done => chk.cdiv
 InRange == chk.done => chk.inrange
 Frame == chk.done => chk.frame
 WF == chk.done => chk.wf
